@@ -113,7 +113,7 @@ class V:
 
 def configure(M, v, geo, pipe, opts):
     m = M.GHEManager()
-    m.set_fluid(opts.get('fluid', 'Water'), opts.get('percent', 0.0), 20.0)
+    m.set_fluid(opts.get('fluid', 'Water'), opts.get('percent', 0.0), opts.get('temperature', 20.0))
     m.set_grout(conductivity=v.real('k_g', 0, 10), rho_cp=v.real('c_g', 0, 1e7))
     m.set_soil(conductivity=v.real('k_s', 0, 10), rho_cp=v.real('c_s', 0, 1e7), undisturbed_temp=v.real('ugt', -10, 40))
     if pipe == 'COAXIAL':
@@ -356,8 +356,11 @@ def units(tier, seed):
     for gi, geo in enumerate(GEOS):
         pipes = PIPES if tier == 'thorough' else [PIPES[gi % 4], PIPES[(gi + 1) % 4]]
         for pi, pipe in enumerate(pipes):
-            opt_list = [dict(), dict(cap=True, cont=True, flow_type='SyStEm', fluid='PropyleneGlycol', percent=25.0)] if tier == 'thorough' else \
-                [dict(cap=bool((gi + pi) % 2), cont=bool(gi % 2), flow_type=['borehole', 'system'][pi % 2])]
+            opt_list = [dict(), dict(cap=True, cont=True, flow_type='SyStEm', fluid='PropyleneGlycol', percent=25.0, temperature=-2.0)] if tier == 'thorough' else \
+                [dict(cap=bool((gi + pi) % 2), cont=bool(gi % 2), flow_type=['borehole', 'system'][pi % 2],
+                      # values that differ from every default of the setters (a default silently substituted on reading must show)
+                      temperature=[20.0, 7.5, 31.0][(gi + pi) % 3], fluid=['Water', 'PropyleneGlycol', 'EthyleneGlycol'][(gi + 2 * pi) % 3],
+                      percent=[0.0, 25.0, 12.5][(gi + 2 * pi) % 3])]
             for oi, opts in enumerate(opt_list):
                 combos.append((geo, pipe, opts, oi))
     for geo, pipe, opts, oi in combos:
